@@ -3,7 +3,7 @@
     expected output. *)
 From Coq Require Import ZArith List Bool String.
 From Low Require Import Lib.Bits Lib.BitSeq Lib.Lex Lib.Bytes Lib.Val Model.Sigbits Spec.SigbitsSpec Spec.ShardRouteSpec
-  Spec.ShardSplitSpec.
+  Spec.ShardSplitSpec Spec.SigbitsSpec16x.
 Import ListNotations.
 Open Scope string_scope.
 Open Scope Z_scope.
@@ -13,13 +13,62 @@ Definition c17_dom (keys : list (list Z)) (maxSize : Z) : bool :=
 
 (** What the model returns.  The faithful model's sFirstDiffBit walks the keys chunk by chunk with
     [skipn] from the start (quadratic in the length of a shared prefix: ~30 s for two keys sharing
-    64 KiB), so for key sets with a key longer than 9000 bytes the run evaluates
+    64 KiB), and [dfs] reads its tables with [nthZ] (quadratic in the number of keys), so for key sets
+    with a key longer than 9000 bytes or with more than 3000 keys the run evaluates
     [spec_ShardByPrefix] instead -- which IS the model's output on the domain [c17_dom]
     (theorem C17_exact: ShardByPrefix keys ms = Some (spec_ShardByPrefix keys ms)).  All other
     cases execute the model itself. *)
 Definition c17_run (keys : list (list Z)) (maxSize : Z) : option (list Z * list Z) :=
-  if forallb (fun k => zlen k <=? 9000) keys then ShardByPrefix keys maxSize
+  if forallb (fun k => zlen k <=? 9000) keys && (zlen keys <=? 3000) then ShardByPrefix keys maxSize
   else Some (spec_ShardByPrefix keys maxSize).
+
+(** one call on given keys, as a value *)
+Definition c17_call (keys : list (list Z)) (ms : Z) : val :=
+  if c17_dom keys ms then
+    match c17_run keys ms with
+    | Some (L, B) => VL [vzs L; vzs B]
+    | None => VPanic
+    end
+  else VBad.
+
+Definition c17_call_ok (keys : list (list Z)) (ms : Z) (obs : val) : bool :=
+  match obs with
+  | VL [L; B] => match as_zs L, as_zs B with
+                 | Some L, Some B => shard_ok keys ms L B
+                 | _, _ => false
+                 end
+  | _ => false
+  end.
+
+(** a history on ONE key buffer: step [keys_i; ms_i; kind_i] refills the buffer in place with
+    keys_i (all of one length) and then calls ShardByPrefix (kind 0; observed (L,B)) or only
+    sigbits.New (kind 1; nothing observed: []) *)
+Fixpoint c17_hist_run (steps : list val) : option (list val) :=
+  match steps with
+  | [] => Some []
+  | VL [keys; ms; kind] :: t =>
+      match as_zss keys, as_z ms, as_z kind, c17_hist_run t with
+      | Some keys, Some ms, Some kind, Some r =>
+          if kind =? 0 then
+            match c17_call keys ms with VBad => None | v => Some (v :: r) end
+          else if c17_dom keys ms then Some (VL [] :: r) else None
+      | _, _, _, _ => None
+      end
+  | _ => None
+  end.
+
+Fixpoint c17_hist_ok (steps obs : list val) : bool :=
+  match steps, obs with
+  | [], [] => true
+  | VL [keys; ms; kind] :: t, o :: ot =>
+      match as_zss keys, as_z ms, as_z kind with
+      | Some keys, Some ms, Some kind =>
+          (if kind =? 0 then c17_call_ok keys ms o else match o with VL [] => true | _ => false end)
+          && c17_hist_ok t ot
+      | _, _, _ => false
+      end
+  | _, _ => false
+  end.
 
 Definition ops_C17 : list opdef := [
   {| op_name := "sigbits.ShardByPrefix";
@@ -66,5 +115,28 @@ Definition ops_C17 : list opdef := [
                | _, _, _ => false
                end
            | _, _, _ => false end
-       | _ => false end |}
+       | _ => false end |};
+  (* a LARGE key set described compactly: keys = prefix + w-byte big-endian counter c0..c0+n-1
+     (expanded on both sides), then one call *)
+  {| op_name := "sigbits.ShardByPrefix/counter";
+     op_run := fun a => match a with
+       | [p; w; c0; n; ms] => match as_zs p, as_z w, as_z c0, as_z n, as_z ms with
+           | Some p, Some w, Some c0, Some n, Some ms =>
+               if (0 <=? w) && (0 <=? c0) && (0 <=? n) && (c0 + n <=? 256 ^ w)
+               then c17_call (counter_keys p w c0 n) ms else VBad
+           | _, _, _, _, _ => VBad end
+       | _ => VBad end;
+     op_spec := fun a obs => match a with
+       | [p; w; c0; n; ms] => match as_zs p, as_z w, as_z c0, as_z n, as_z ms with
+           | Some p, Some w, Some c0, Some n, Some ms => c17_call_ok (counter_keys p w c0 n) ms obs
+           | _, _, _, _, _ => false end
+       | _ => false end |};
+  (* ONE []string buffer, refilled in place between the calls *)
+  {| op_name := "sigbits.ShardByPrefix/reuse";
+     op_run := fun a => match a with
+       | [VL steps] => match c17_hist_run steps with Some r => VL r | None => VBad end
+       | _ => VBad end;
+     op_spec := fun a obs => match a, obs with
+       | [VL steps], VL os => c17_hist_ok steps os
+       | _, _ => false end |}
 ].
